@@ -5,7 +5,7 @@
 use crate::cli::{run_gram, write_input};
 use crate::fw::{Ctx, Plan, Prop, Tier, panic_site, sec};
 use crate::gen_prog::{Mode, gen_program};
-use crate::perturb::perturb;
+use crate::perturb::perturb_or_edit as perturb;
 use crate::pipe::{Front, Obs, Opts, Run, StuckClass, observe};
 use crate::printer::{Style, print};
 use crate::typed::{D3_KEY, D4_KEY, d3_applicable, front_name, has_source_holes, run_name, stuck_name};
